@@ -171,9 +171,59 @@ func genVersions(r *hv.Rng) (string, hv.Val) {
 	return "versions-alternate", hv.L{reqs, scripts}
 }
 
+var allMethods = []string{"GET", "HEAD", "POST", "PUT", "DELETE", "OPTIONS", "PATCH", "TRACE"}
+
+// every method x body framing (none, Content-Length, chunked), the body being a complete request, then a real GET:
+// whatever the method, the next request starts after the declared body.
+func genMethods(r *hv.Rng, k int) (string, hv.Val) {
+	method := allMethods[k%len(allMethods)]
+	framing := (k / len(allMethods)) % 3
+	minor := 1
+	if r.Chance(1, 6) {
+		minor = 0
+	}
+	hd := fmt.Sprintf("%s /m/%d HTTP/1.%d\r\nHost: example.org\r\nX-Verif-Id: r0\r\nX-Verif-Spec: r0\r\n", method, k, minor)
+	if minor == 0 {
+		hd += "Connection: keep-alive\r\n"
+	}
+	switch framing {
+	case 1:
+		hd += fmt.Sprintf("Content-Length: %d\r\n\r\n%s", len(evilReq), evilReq)
+	case 2:
+		hd += fmt.Sprintf("Transfer-Encoding: chunked\r\n\r\n%x\r\n%s\r\n0\r\n\r\n", len(evilReq), evilReq)
+	default:
+		hd += "\r\n"
+	}
+	head := 0
+	if method == "HEAD" {
+		head = 1
+	}
+	reqs := hv.L{hv.L{hv.S(hd), hv.S("r0"), hv.I(0), hv.I(head), hv.I(0)}}
+	next := "GET /m/next HTTP/1.1\r\nHost: example.org\r\nX-Verif-Id: r1\r\nX-Verif-Spec: r1\r\n\r\n"
+	reqs = append(reqs, hv.L{hv.S(next), hv.S("r1"), hv.I(0), hv.I(0), hv.I(0)})
+	src := []int{0, 0, 0, 1}[r.Intn(4)]
+	rd := r.Intn(3)
+	if framing == 0 && rd == 2 {
+		rd = 1
+	}
+	if src == 1 {
+		rd = 0
+	}
+	date := [][2]string{{"Date", h1x2.FixedDate}}
+	scripts := hv.L{
+		script("evil", 0, 0, 200, date, [][]byte{[]byte("evil")}, 0),
+		script("r0", src, rd, 200, date, [][]byte{[]byte("resp-r0")}, 0),
+		script("r1", 0, 0, 200, date, [][]byte{[]byte("resp-r1")}, 0),
+	}
+	return fmt.Sprintf("method-%s-%s", strings.ToLower(method), []string{"nobody", "cl", "chunked"}[framing]), hv.L{reqs, scripts}
+}
+
 func gen(r *hv.Rng, i int, tier string) (string, hv.Val) {
 	if i%9 == 4 {
 		return genVersions(r)
+	}
+	if i%9 == 7 {
+		return genMethods(r, i/9)
 	}
 	n := 1 + r.Intn(6)
 	reqs, scripts := hv.L{}, hv.L{}
@@ -207,12 +257,22 @@ func gen(r *hv.Rng, i int, tier string) (string, hv.Val) {
 		if typ == 5 {
 			minor = 1 // an HTTP/1.0 request cannot ask for 100-continue: the expectation is ignored there
 		}
-		method := "GET"
+		// every method with every body framing: the framing of a request does not depend on its method
+		method := allMethods[r.Intn(len(allMethods))]
 		switch typ {
+		case 0:
+			if r.Chance(1, 2) {
+				method = "GET"
+			}
 		case 1:
-			method, head = "HEAD", 1
-		case 2, 3, 4, 5, 7, 8, 9:
-			method = []string{"POST", "PUT"}[r.Intn(2)]
+			method = "HEAD"
+		default:
+			if r.Chance(1, 2) {
+				method = []string{"POST", "PUT"}[r.Intn(2)]
+			}
+		}
+		if method == "HEAD" {
+			head = 1
 		}
 		if typ == 6 { // malformed head
 			kind = 2
